@@ -309,6 +309,7 @@ func WithManifestDigestAlgo(algo digest.Algorithm) Opts {
 			}
 			desc := dm.m.GetDescriptor()
 			desc.Digest = ""
+			desc.Data = nil // the body is serialized again, inline data of the old body must not survive
 			err := desc.DigestAlgoPrefer(algo)
 			if err != nil {
 				return err
